@@ -195,5 +195,9 @@ func (dist *BinomialDistribution) ImportConfig(config ConfigDistribution, t Scal
 
 func (dist *BinomialDistribution) ExportConfig() ConfigDistribution {
 
-  return NewConfigDistribution("scalar:binomial distribution", dist.GetParameters())
+  // Theta is stored on log scale, the configuration holds the probability
+  parameters := dist.GetParameters()
+  parameters.At(0).Exp(parameters.At(0))
+
+  return NewConfigDistribution("scalar:binomial distribution", parameters)
 }
